@@ -20,6 +20,25 @@ import (
 	"grol.io/grol/token"
 )
 
+var lexChurnText []byte
+
+func lexChurn() {
+	if lexChurnText == nil {
+		var b strings.Builder
+		for i := 0; i < 10000; i++ {
+			fmt.Fprintf(&b, "zq%d_ 9%d7 ", i, i)
+		}
+		lexChurnText = []byte(b.String())
+	}
+	l := lexer.NewBytes(lexChurnText)
+	for {
+		t := l.NextToken()
+		if t == nil || t.Type() == token.EOF {
+			return
+		}
+	}
+}
+
 func lexRunTwo(h string) string {
 	src := unhx(h)
 	ids := map[*token.Token]int{}
@@ -30,6 +49,10 @@ func lexRunTwo(h string) string {
 		if run == 0 {
 			l = lexer.NewBytes([]byte(src))
 		} else {
+			// "whatever was lexed before": between the two runs the process interns 20000 other tokens (the same ones in every
+			// case: the table of the unchanged code grows once).  Seeded change C16-6 emptied the table when it held 16384
+			// entries, so that tokens handed out earlier and equal tokens lexed later were different objects.
+			lexChurn()
 			l = lexer.NewLineMode(src)
 			sb.WriteByte('+')
 		}
